@@ -6,7 +6,7 @@ from . import diffsrc as D
 
 ASSUME_S = [
     "Go channel, select, goroutine and defer semantics are as encoded in Sched.step (trusted, not verified)",
-    "job bodies are atomic in the model; one context per scheduler; user errors are atomic values",
+    "job bodies are atomic in the model; every job has its own context and Wait has one (cancellation of a context is one atomic step); user errors are atomic values",
     "the correspondence between scheduler/scheduler.go and the model is differential: it covers the executions explored, the theorems cover all executions of the model",
     "harness/cmd/schedrun (oracles, scenario generator), the verif-tagged hooks, lib/vlib (verdict logic) and Driver.lean's parser are trusted",
 ]
